@@ -38,6 +38,18 @@ id=${1:?property id}; tier=${2:-${VERIF_TIER:-quick}}
 parts=$(python3 tools/parts.py list "$id")
 [ -n "$parts" ] || { echo "unknown property $id" >&2; exit 2; }
 rm -f "$OUT/evidence/$id.json" "$OUT"/evidence/parts/"$id".*.json
+if [ -n "${VERIF_FIRST_VIOLATION:-}" ]; then
+  # detection mode (tools/detect.sh): build lazily, run the parts one by one, stop at the first part
+  # that reports a violation (evidence of the remaining parts is not needed for a detection verdict)
+  built=" "
+  while IFS=$'\t' read -r cmd part race args; do
+    case "$built" in *" $cmd:$race "*) ;; *) build "$cmd" "$race" || { echo "INTERNAL: build of $cmd failed" >&2; exit 2; }; built="$built$cmd:$race ";; esac
+    bin=.bin/$cmd$SUF; [ "$race" = 1 ] && bin=.bin/$cmd$SUF.race
+    VERIF_TIER=$tier VERIF_PART=$part VERIF_BIN="$PWD/$bin" "$bin" "$id" "$tier" $args; r=$?
+    if [ "$r" -eq 1 ]; then exit 1; elif [ "$r" -ne 0 ]; then echo "INTERNAL: $cmd ($part) exited $r" >&2; exit 2; fi
+  done <<< "$parts"
+  exit 0
+fi
 # build every binary the property needs (per-binary locks), then run the parts, up to PAR at a time
 while IFS=$'\t' read -r cmd part race args; do
   build "$cmd" "$race" || { echo "INTERNAL: build of $cmd failed" >&2; exit 2; }
